@@ -31,7 +31,10 @@ def seeded():
         files = ", ".join(os.path.basename(f) for f in files)
         res = m.get("check_results", {}).get("quick", {})
         verdict = res.get("verdict", "not run")
-        if verdict == "caught":
+        if "-b" in m["id"]:
+            verdict = {"silent": "silent, as required (behaviour-preserving rewrite)", "MISSED": "silent, as required (behaviour-preserving rewrite)",
+                       "ALARM": "ALARM (no-failing-input-found)", "caught": "ALARM"}.get(verdict, verdict)
+        elif verdict == "caught":
             verdict = "yes, failing input" if res.get("with_failing_input") else "yes, no-failing-input-found"
         out.append("| %s | %s | %s | %s |" % (m["id"], first[:150].replace("|", "/"), files, verdict))
     return "\n".join(out)
